@@ -10,7 +10,7 @@ ASSUME_COMMON = "in-package harness injected with go test -overlay (build tag ve
 # id -> (category, level text, level note, technique, design ref)
 CLAIMS = {
  "C04": ("fault_enumeration",
-  "Token-tree reference model compared with the running core (liveness of every token, cubbyhole keys in the physical store, raw lease records) over seeded histories; every single storage-operation failure inside each of 5 revocation flows followed by retries; a restarted core on every prefix of the durable writes of each flow; and create||revoke requests scheduled at storage-operation granularity (preemption-bounded enumeration + PCT). Fault and crash points are enumerated completely for the flows driven; schedules and histories are samples.",
+  "Token-tree reference model compared with the running core (liveness of every token, cubbyhole keys in the physical store, raw lease records) over seeded histories; every single storage-operation failure inside each of 5 revocation flows followed by retries; a restarted core on every prefix of the durable writes of each flow; and create||revoke requests scheduled at storage-operation granularity (preemption-bounded enumeration + PCT); re-issue of a caller-chosen token id (and use of a batch child) while the earlier holder's queued revocation is interrupted at every storage operation of its request and queued parts. Fault and crash points are enumerated completely for the flows driven; schedules and histories are samples.",
   "single-fault model (one storage op of the tagged request fails once); crash = prefix of the physical write sequence; schedules = orderings of storage ops under sys/token and sys/expire; " + ASSUME_COMMON,
   "runtime monitor: reference-model oracle over histories + single-fault/crash-prefix enumeration + gated storage-operation scheduler", "DESIGN.md §4 C04"),
  "C11": ("fault_enumeration",
@@ -18,15 +18,15 @@ CLAIMS = {
   "device failures are scripted (programmable devices); non-HMAC exemption read as 'some map key on the path is listed'; " + ASSUME_COMMON,
   "runtime monitor: event-order oracle under enumerated audit-device fault patterns + plaintext-canary search of formatted entries", "DESIGN.md §4 C11"),
  "C18": ("exploration",
-  "Exactly-once counter over which requests obtained the canary-marked payload (over the wrapping token and its rewrapped successors), residue scan of the physical store (token record, accessor, lease, cubbyhole), creation-path, misuse, wrong-token and TTL-expiry checks; over sequential histories and over k<=4 concurrent unwrap/rewrap/lookup/revoke/cubbyhole-read requests scheduled at storage-operation granularity.",
+  "Exactly-once counter over which requests obtained the canary-marked payload (over the wrapping token and its rewrapped successors), residue scan of the physical store (token record, accessor, lease, cubbyhole), creation-path, misuse, wrong-token and TTL-expiry checks; a grants matrix (requester with token / entity / group policies or root x wrapped secret, list, login x 0-2 rewraps x 14 probes: refused, no handler, no storage change); over sequential histories and over k<=4 concurrent unwrap/rewrap/lookup/revoke/cubbyhole-read requests scheduled at storage-operation granularity.",
   "payload identified by a unique canary; schedules = orderings of storage ops under sys/token, sys/expire, logical/; TTL expiry asserted only after the harness saw the clock pass it; " + ASSUME_COMMON,
   "runtime monitor: exactly-once counter + storage residue scan under a gated storage-operation scheduler", "DESIGN.md §4 C18"),
  "C19": ("exploration",
-  "At-most-n / exactly-n counter of accounted uses (the request's own tagged write of the token's id record), handler-after-use ordering, monotone stored count, post-exhaustion token refusal and lease state, child-creation refusal; for n in 1..4 over sequential histories and m>n concurrent mixed requests scheduled at storage-operation granularity.",
+  "At-most-n / exactly-n counter of accounted uses (the request's own tagged write of the token's id record), handler-after-use ordering, monotone stored count, post-exhaustion token refusal and lease state (the final use must have queued the revocation, decided from storage), child-creation refusal, no use given back when the token's parent is orphan-revoked concurrently; for n in 1..4 over sequential histories and m>n concurrent mixed requests scheduled at storage-operation granularity.",
   "a use is observed as the tagged put of the token's id record by UseToken; schedules = orderings of storage ops on sys/token/id and sys/expire; " + ASSUME_COMMON,
   "runtime monitor: use-accounting counter over the probe log under a gated storage-operation scheduler", "DESIGN.md §4 C19"),
  "C20": ("exploration",
-  "Runtime oracles on the real Split/Combine and the package-private field and polynomial code: exhaustive field laws (65536 pairs, 2^24 triples) against an independent reference, exhaustive 1-byte secrets for n<=5 with all subsets, bijection (independence) check for t<=3 on polynomial.evaluate, degree/intercept check by reference interpolation, sub-threshold non-reconstruction for long secrets, rejection cases, loose statistical monitor on coefficients.",
+  "Runtime oracles on the real Split/Combine and the package-private field and polynomial code: exhaustive field laws (65536 pairs, 2^24 triples) against an independent reference, exhaustive 1-byte secrets for n<=5 with all subsets, bijection (independence) check for t<=3 on polynomial.evaluate, degree/intercept check by reference interpolation, sub-threshold non-reconstruction for long secrets, rejection cases, exact output distribution of the real coefficient sampler over the tree of scripted crypto/rand streams (every coefficient tuple has probability exactly 256^-(t-1) for t<=3), loose statistical monitor on Split; threshold accounting of Core.Unseal, root-token generation and rekey incl. rekey verification (progress = distinct shares, completes exactly at t genuine distinct shares, a failed attempt starts over, the new key takes effect only after verification).",
   "crypto/rand assumed uniform; independence for t>3 not observable at run time; " + ASSUME_COMMON,
   "runtime oracle: exhaustive/seeded differential test against an independent GF(2^8) reference + bijection monitor", "DESIGN.md §4 C20"),
 }
